@@ -589,3 +589,7 @@ pub(crate) struct Pake3<'a> {
     /// The cA confirmation (32 bytes HMAC)
     pub ca: OctetStr<'a>,
 }
+
+#[cfg(any(kani, verif_replay))]
+#[path = "/verif/kani/pase.rs"]
+pub(crate) mod verif_kani_pase;
